@@ -138,6 +138,9 @@ type argSrc struct {
 	r           *rng.R
 	desc        []interface{}
 	forceDialer int // >0: the next Dialer argument is of this kind (see Dialer below)
+	// >0: the next Endpoint argument offers no user token policy of the type the next TokenType argument asks for
+	// (1 = no token policies at all, 2 = only other types), so that SecurityFromEndpoint takes its fallback
+	forceFallback int
 }
 
 func hx(s string) string { return hex.EncodeToString([]byte(s)) }
@@ -326,14 +329,23 @@ func (a *argSrc) StateFunc(opt, param string) func(opcua.ConnState) {
 	return stateFuncs[i]
 }
 func (a *argSrc) Endpoint(opt, param string) *ua.EndpointDescription {
-	if a.r.Intn(10) == 0 {
+	if a.forceFallback == 0 && a.r.Intn(10) == 0 {
 		a.add(map[string]interface{}{"nil": true})
 		return nil
 	}
 	ep := &ua.EndpointDescription{SecurityPolicyURI: a.str(), SecurityMode: ua.MessageSecurityMode(a.r.Intn(5)), ServerCertificate: a.bytes()}
 	var toks []interface{}
 	n := a.r.Intn(4)
+	if a.forceFallback == 1 {
+		n = 0
+	}
 	for i := 0; i < n; i++ {
+		if a.forceFallback == 2 { // the requested type will be 0 (anonymous): offer only the others
+			t := &ua.UserTokenPolicy{TokenType: ua.UserTokenType(1 + a.r.Intn(3)), PolicyID: a.str(), SecurityPolicyURI: a.str()}
+			ep.UserIdentityTokens = append(ep.UserIdentityTokens, t)
+			toks = append(toks, map[string]interface{}{"type": uint32(t.TokenType), "policyid": hx(t.PolicyID), "secpolicy": hx(t.SecurityPolicyURI)})
+			continue
+		}
 		if a.r.Intn(12) == 0 {
 			ep.UserIdentityTokens = append(ep.UserIdentityTokens, nil)
 			toks = append(toks, nil)
@@ -349,6 +361,9 @@ func (a *argSrc) Endpoint(opt, param string) *ua.EndpointDescription {
 }
 func (a *argSrc) TokenType(opt, param string) ua.UserTokenType {
 	v := uint32(a.r.Intn(5))
+	if a.forceFallback > 0 {
+		v, a.forceFallback = 0, 0
+	}
 	a.add(map[string]interface{}{"n": v})
 	return ua.UserTokenType(v)
 }
@@ -400,7 +415,8 @@ func dump(v reflect.Value, depth int) interface{} {
 		if k, ok := v.Interface().(*rsa.PrivateKey); ok {
 			return map[string]interface{}{"key": keyID(k)}
 		}
-		m := map[string]interface{}{"to": dump(v.Elem(), depth+1)}
+		// "@": the address, so that the check can see one object reachable from two clients (or from a client and a package default)
+		m := map[string]interface{}{"to": dump(v.Elem(), depth+1), "@": fmt.Sprintf("%x", v.Pointer())}
 		if name, ok := globalPtrs[v.Pointer()]; ok {
 			m["ptr"] = name
 		}
@@ -516,6 +532,24 @@ type progObs struct {
 // partially filled dialers a caller may hand to opcua.Dialer: 1 = &uacp.Dialer{}, 2 = only the net.Dialer, 3 = only ClientACK
 var partialDialers = []int{1, 2, 3}
 
+func optIndex(name string) int {
+	for i, g := range genOptions {
+		if g.Name == name {
+			return i
+		}
+	}
+	return -1
+}
+
+// programs in which two clients both take SecurityFromEndpoint's fallback (no user token policy of the requested type)
+// and one of them applies one more option X: 2 orders x every X
+func fallbackPrograms() int {
+	if optIndex("SecurityFromEndpoint") < 0 {
+		return 0
+	}
+	return 2 * len(genOptions)
+}
+
 func dialerIndex() int {
 	for i, g := range genOptions {
 		if g.Name == "Dialer" {
@@ -529,16 +563,23 @@ func dialerIndex() int {
 func systematic() int {
 	n := len(genOptions)
 	if dialerIndex() < 0 {
-		return 2 * n
+		return 2*n + fallbackPrograms()
 	}
-	return 2*n + len(partialDialers)*n
+	return 2*n + len(partialDialers)*n + fallbackPrograms()
 }
 
 func plan(seed uint64, index int) (kind string, clients [][]int, r *rng.R) {
 	r = rng.New(seed*1000003 + uint64(index))
 	n := len(genOptions)
 	switch {
-	case index >= 2*n && index < systematic():
+	case index >= systematic()-fallbackPrograms() && index < systematic():
+		k := index - (systematic() - fallbackPrograms())
+		sfe := optIndex("SecurityFromEndpoint")
+		if k < n {
+			return "fallback-late", [][]int{{sfe}, {sfe, k}}, r // the second client gets X: must not change the first
+		}
+		return "fallback-early", [][]int{{sfe, k - n}, {sfe}}, r // the first client gets X: the second must not see it
+	case index >= 2*n && index < systematic()-fallbackPrograms():
 		// NewClient(Dialer(<partially filled dialer>), X) for every option X, then a default client
 		return fmt.Sprintf("dialer%d-then", partialDialers[(index-2*n)/n]), [][]int{{dialerIndex(), (index - 2*n) % n}, {}}, r
 	case index < n: // every option on its own, followed by a default client
@@ -571,6 +612,9 @@ func runProgram(seed uint64, index int) progObs {
 		a := &argSrc{r: r}
 		if strings.HasPrefix(kind, "dialer") && ci == 0 {
 			a.forceDialer = int(kind[6] - '0')
+		}
+		if strings.HasPrefix(kind, "fallback") {
+			a.forceFallback = 1 + index%2
 		}
 		var opts []opcua.Option
 		var oo []optObs
